@@ -62,6 +62,17 @@ def expected_counts(spec, cutoff, mode, max_bond):
             exact = alls == thr
             if np.any(close & ~exact):
                 near = True
+            # bit-identical values on both sides of a count-defined threshold (cumulative rule
+            # or bond limit cutting through a tie): which of the equal values goes is not
+            # decided by the rule
+            if mode in (1, 2):
+                k_rule = int(np.count_nonzero(alls >= (cutoff if mode == 1 else alls[-1] * cutoff)))
+            else:
+                k_rule = nkeep
+            if 0 < max_bond < N:
+                k_rule = min(k_rule, max_bond)
+            if int(np.count_nonzero(alls >= thr)) != k_rule:
+                near = True
         return {c: int(np.count_nonzero(s >= thr)) for c, s in spec.items()}, near
     return None, False
 
@@ -125,7 +136,7 @@ def judge(ctx, x, spec, cutoff, mode, max_bond, via, wit, tagsig):
     nk = sum(len(v) for v in kept.values())
     # per charge: the kept values are that charge's largest
     for c, v in kept.items():
-        if c not in spec or len(v) > len(spec[c]) or not np.allclose(v, spec[c][: len(v)], atol=1e-9 * max(1.0, float(spec[c][0])), rtol=0):
+        if c not in spec or len(v) > len(spec[c]) or not np.allclose(v, spec[c][: len(v)], atol=1e-9 * float(max(v_[0] for v_ in spec.values())), rtol=0):
             V("not-the-largest-of-its-charge", f"charge {c!r}: kept {v} are not the largest of {spec.get(c)}")
             return None
     disc = np.concatenate([spec[c][len(kept.get(c, [])) :] for c in spec]) if spec else np.zeros(0)
@@ -180,7 +191,7 @@ def judge(ctx, x, spec, cutoff, mode, max_bond, via, wit, tagsig):
         rec = np.zeros_like(dx)
     err2 = float(np.sum(np.abs(dx - rec) ** 2))
     want = float(np.sum(disc**2))
-    sc = max(1.0, float(np.sum(np.abs(dx) ** 2)))
+    sc = float(np.sum(np.abs(dx) ** 2)) or 1.0  # relative to the data (inputs may be rescaled by 1e-100 .. 1e100)
     if abs(err2 - want) > 1e-8 * sc:
         V("error-not-discarded-weight", f"||x - U S V+||^2 = {err2} != discarded weight {want}")
         return None
@@ -212,7 +223,7 @@ def absorb_variants(ctx, x, cutoff, mode, max_bond, rec, wit):
                 ctx.violation(f"absorb-product-raises-{op.excname}", repr(op.exc), w)
                 return
             prod = embed(op.value, x.indices)
-        if not np.allclose(prod, rec, atol=1e-9 * max(1.0, float(np.abs(rec).max(initial=0))), rtol=0):
+        if not np.allclose(prod, rec, atol=1e-9 * (float(np.abs(embed(x)).max(initial=0)) or 1.0), rtol=0):
             ctx.violation("absorb-product", f"absorb={absorb!r}: U.V+ differs from U diag(s) V+ of absorb=None, max|diff| {cmp.maxdiff(prod, rec)}", w)
             return
         if audit(U) or audit(VH):
@@ -227,6 +238,13 @@ def case(ctx, rng):
         ctx.count("feature", "four-or-more-charges")
     if x is None or not x.blocks:
         return
+    if rng.random() < 0.15:
+        # the rules are either scale covariant (absolute cutoffs are drawn from the spectrum)
+        # or scale free (relative modes): rescale the data by many orders of magnitude
+        f = rng.choice([1e-16, 1e-16, 1e-40, 1e-100, 1e-9, 1e9, 1e30, 1e100])
+        for s_ in list(x.blocks):
+            x.blocks[s_] = x.blocks[s_] * f
+        feats = set(feats) | {"rescaled-data"}
     spec = spectrum(x)
     alls = np.sort(np.concatenate(list(spec.values())))
     N = len(alls)
